@@ -365,6 +365,66 @@ def run_call(root, step, extra_sealed=(), extra_acc=(), sink=None):
   return res
 
 
+class Worker:
+  """A real thread that executes what it is handed, one piece at a time, and waits in between: the
+  steps of a threaded case happen in the order of the case, each on the thread the case names, so the
+  thread-local scopes of pyglove are exercised deterministically."""
+
+  def __init__(self):
+    import queue
+    import threading
+    self.inbox, self.outbox = queue.Queue(), queue.Queue()
+    self.cms = []        # the scopes this thread is inside of, innermost last
+    self.thread = threading.Thread(target=self._loop, daemon=True)
+    self.thread.start()
+    self.run(self._base_scopes)
+
+  def _base_scopes(self):
+    """Every thread of a case starts inside `as_sealed(None)` / `allow_writable_accessors(None)`
+    (= no override: the per-object flags decide), so that a case never depends on what an earlier
+    case of the same process may have left behind."""
+    import pyglove as pg
+    for cm in (pg.as_sealed(None), pg.allow_writable_accessors(None)):
+      cm.__enter__()
+      self.cms.append(cm)
+
+  def _loop(self):
+    while True:
+      fn = self.inbox.get()
+      if fn is None:
+        return
+      try:
+        self.outbox.put((True, fn()))
+      except BaseException as e:    # pylint: disable=broad-except
+        self.outbox.put((False, e))
+
+  def run(self, fn):
+    self.inbox.put(fn)
+    ok, v = self.outbox.get()
+    if not ok:
+      raise v
+    return v
+
+  def stop(self):
+    def leave_all():
+      while self.cms:
+        self.cms.pop().__exit__(None, None, None)
+    self.run(leave_all)
+    self.inbox.put(None)
+    self.thread.join(5)
+
+
+class Inline:
+  """The thread of the harness itself (no scopes of its own in a threaded case)."""
+  cms = []
+
+  def run(self, fn):
+    return fn()
+
+  def stop(self):
+    pass
+
+
 LIFECYCLE = t_c08.LIFECYCLE | {'__getattribute__', '__getattr__'}
 PROBE_ARGS = [[], [0], ['a'], ['x'], [0, 9], ['a', 9], ['x', 9], [[9]], [val_node('dict', [['a', 9]])],
               [val_node('dict', [['b', 9]])], [val_node('dict', [['x', 9]])], [val_node('idict', [[0, 9]])],
@@ -723,7 +783,10 @@ class C08(Prop):
           'whose lists / dict values / object fields hold inferential elements (a ValueFromParentChain subclass '
           'that evaluates to a value outside the sealed subtree), sealed / unsealed at any node; 300 forests (the tree '
           'plus an external value that pg.Ref elements of the tree refer to; steps on either tree); the plumbing '
-          'entry points sym_setparent / sym_setpath are part of the entry-point grid; '
+          'entry points sym_setparent / sym_setpath are part of the entry-point grid; 250 threaded histories (two worker '
+          'threads + the harness thread, scheduled step by step with hand-offs: scopes entered / left per thread, '
+          'overlapping without being nested across threads, calls by each thread, all scopes left at the end and '
+          'every thread calling again); '
           'plus an exhaustive grid: every entry point x {node, child, '
           'grandchild} x own flag x 9 scope stacks x accessor flag, and every mutating method found by '
           'introspection of the classes\' MRO. Non-trivial: the step addresses a node that is protected '
@@ -743,6 +806,8 @@ class C08(Prop):
       'sym_setparent / sym_setpath (TopologyAware plumbing, used by every insertion) are not write-protected by the '
       'code: they change the parent link / path of a node, never contents or flags; modelled as calls that end '
       'normally and leave the tree as it is, the oracle checks contents and flags (tree integrity is C01)',
+      'threads: real threading.Thread workers driven one step at a time (deterministic schedule); the model gives '
+      'every thread its own two scope stacks (thread-local storage) -- preemption inside a call is not exercised',
       'a forest is a list of trees without shared nodes; pg.Ref elements are field-less symbolic nodes, the value '
       'they refer to is another tree of the forest (references into the same tree are rejected by pyglove)',
   ]
@@ -762,6 +827,7 @@ class C08(Prop):
     yield from self.flag_history_cases(rng, 300 if tier == 'quick' else 6000)
     yield from self.inferential_cases(rng, 250 if tier == 'quick' else 5000)
     yield from self.ref_cases(rng, 300 if tier == 'quick' else 6000)
+    yield from self.thread_cases(rng, 250 if tier == 'quick' else 5000)
     yield from self.grid_cases()
     yield from self.discovered_cases()
     yield from self.shallow_seal_cases()
@@ -1104,6 +1170,60 @@ class C08(Prop):
           break                      # a call may change the structure the later steps were drawn for
       yield {'tree': t, 'ext': ext, 'steps': steps, 'forest': True}
 
+  def thread_cases(self, rng, n):
+    """Two worker threads and the thread of the harness, scheduled step by step: each thread enters
+    and leaves `as_sealed` / `allow_writable_accessors` scopes (True / False / None, nested within the
+    thread, overlapping in any way with the other thread's) and makes entry-point calls on sealed and
+    unsealed values; at the end all scopes are left (in an order that is not nested across threads)
+    and every thread makes a call again. The calls put atoms at existing places, so the shape stays."""
+    g = Gen(rng)
+    def atom_call(node):
+      kind = node['k']
+      at = [(k, c) for k, c in children(node) if not is_node(c)]
+      if kind == 'list':
+        if at and rng.chance(0.6):
+          return {'name': 'l_setitem', 'i': rng.choice(at)[0], 'v': g.atom()}
+        if at and rng.chance(0.5):
+          return {'name': 'rebind', 'pairs': [[[rng.choice(at)[0]], g.atom()]]}
+        return {'name': 'l_reverse'} if not any(is_node(c) for _, c in children(node)) else {'name': 'sym_setpath'}
+      if kind == 'dict':
+        key = rng.choice(at)[0] if at and rng.chance(0.7) else rng.choice(['n1', 'n2'])
+        return rng.choice([{'name': 'd_setitem', 'key': key, 'v': g.atom()}, {'name': 'd_setattr', 'key': key, 'v': g.atom()},
+                           {'name': 'rebind', 'pairs': [[[key], g.atom()]]}, {'name': 'd_update', 'kvs': [[key, g.atom()]]}])
+      fld = [k for k, c in at] or None
+      if fld is None:
+        return {'name': 'sym_setpath'}
+      key = rng.choice(fld)
+      return rng.choice([{'name': 'o_setattr', 'key': key, 'v': g.atom()}, {'name': 'rebind', 'pairs': [[[key], g.atom()]]}])
+    for _ in range(n):
+      t = g.flags(g.tree(rng.randint(1, 3)))
+      nodes = all_nodes(t)
+      open_ = {0: [], 1: []}
+      steps = []
+      def call_by(th):
+        sealed_nodes = [(p, x) for p, x in nodes if x['s']]
+        path, node = rng.choice(sealed_nodes) if sealed_nodes and rng.chance(0.5) else rng.choice(nodes)
+        steps.append({'kind': 'call', 't': th, 'recv': path, 'sealed_scopes': [], 'acc_scopes': [], 'call': atom_call(node)})
+      for _ in range(rng.randint(4, 10)):
+        th = rng.below(2)
+        k = rng.below(10)
+        if k < 4 and len(open_[th]) < 3:
+          which = 'sealed' if rng.chance(0.75) else 'acc'
+          steps.append({'kind': 'enter', 't': th, 'which': which, 'v': rng.choice([True, False, None]), 'recv': []})
+          open_[th].append(which)
+        elif k < 6 and open_[th]:
+          steps.append({'kind': 'leave', 't': th, 'which': open_[th].pop(), 'recv': []})
+        else:
+          call_by(rng.choice([0, 1, 0, 1, 2]))
+      while open_[0] or open_[1]:
+        th = rng.choice([x for x in (0, 1) if open_[x]])
+        steps.append({'kind': 'leave', 't': th, 'which': open_[th].pop(), 'recv': []})
+        if rng.chance(0.3):
+          call_by(rng.below(3))
+      for th in (0, 1, 2):
+        call_by(th)
+      yield {'tree': t, 'steps': steps, 'threads': 2}
+
   def grid_cases(self):
     stacks = [[], [True], [False], [None], [True, None], [None, True], [False, True], [True, False], [None, None, False]]
     for leafk, tmpl, path in grid_templates():
@@ -1183,9 +1303,17 @@ class C08(Prop):
     req = {'op': 'run', 'tree': case['tree'], 'steps': case['steps']}
     if 'ext' in case:
       req['ext'] = case['ext']
+    if case.get('threads'):
+      req['threads'] = case['threads'] + 1        # the harness thread is the last one
     return req
 
   def impl(self, case):
+    import pyglove as pg
+    # the harness thread starts from "no override" (see Worker._base_scopes)
+    with pg.as_sealed(None), pg.allow_writable_accessors(None):
+      return self._impl_body(case)
+
+  def _impl_body(self, case):
     import pyglove as pg
     classes()
     has_ext = 'ext' in case
@@ -1202,6 +1330,16 @@ class C08(Prop):
       return (e, r) if in_ext else (r, e)
     def tojson(v):
       return pg.to_json(v, save_ref_value=True)
+    nthreads = case.get('threads', 0)
+    workers = [Worker() for _ in range(nthreads)] + [Inline()]
+    try:
+      return self._impl_steps(case, pg, root, ext, has_ext, twin, tojson, workers, pre0)
+    finally:
+      for w in workers:
+        w.stop()
+      _EXT[0] = None
+
+  def _impl_steps(self, case, pg, root, ext, has_ext, twin, tojson, workers, pre0):
     outs = []
     for step in case['steps']:
       in_ext = step.get('in') == 'ext'
@@ -1209,22 +1347,19 @@ class C08(Prop):
       target = ext if in_ext else root
       pre = pre_ext if in_ext else pre_root
       o = {}
-      if step['kind'] in ('call', 'generic'):
-        jb = tojson(target)
-        sink = []
-        o['res'] = run_call(target, step, sink=sink)
-        o['json_same'] = tojson(target) == jb
-        # the flagged (e.g. sealed) values handed to the call: what they look like afterwards
-        o['ins'] = [{'v': vj, 'after': dump(v)} for vj, v in sink]
-        # would the call change anything if nothing were sealed / if accessors were writable?
-        r1, _ = twin(pre_root, pre_ext, in_ext)
-        sink1 = []
-        o['unsealed'] = {'res': run_call(r1, step, extra_sealed=[False], sink=sink1)}
-        o['unsealed']['changes'] = dump(r1) != pre
-        o['unsealed']['ins_changed'] = [dump(v) != vj for vj, v in sink1]
-        r2, _ = twin(pre_root, pre_ext, in_ext)
-        o['acc_true'] = {'res': run_call(r2, step, extra_acc=[True])}
-        o['acc_true']['tree'] = dump(r2)
+      worker = workers[step['t']] if 't' in step and step['t'] < len(workers) - 1 else workers[-1]
+      if step['kind'] in ('enter', 'leave'):
+        def scope_action(step=step, worker=worker):
+          if step['kind'] == 'enter':
+            cm = (pg.as_sealed if step['which'] == 'sealed' else pg.allow_writable_accessors)(step['v'])
+            cm.__enter__()
+            worker.cms.append(cm)
+          else:
+            worker.cms.pop().__exit__(None, None, None)
+        worker.run(scope_action)
+        o['res'] = 'ok'
+      elif step['kind'] in ('call', 'generic'):
+        o = worker.run(lambda: self._call_outcome(step, target, pre, pre_root, pre_ext, in_ext, twin, tojson))
       elif step['kind'] == 'seal':
         try:
           navigate(target, step['recv']).seal(step['b'])
@@ -1241,9 +1376,28 @@ class C08(Prop):
       if has_ext:
         o['ext'] = dump(ext)
       outs.append(o)
-    _EXT[0] = None
     model = {'steps': [dict({'res': o['res'], 'tree': o['tree']}, **({'ext': o['ext']} if has_ext else {})) for o in outs]}
     return {'model': model, 'steps': outs, 'pre': pre0}
+
+  def _call_outcome(self, step, target, pre, pre_root, pre_ext, in_ext, twin, tojson):
+    """One call with its two twins (nothing sealed / accessors writable), all on the calling thread."""
+    o = {}
+    jb = tojson(target)
+    sink = []
+    o['res'] = run_call(target, step, sink=sink)
+    o['json_same'] = tojson(target) == jb
+    # the flagged (e.g. sealed) values handed to the call: what they look like afterwards
+    o['ins'] = [{'v': vj, 'after': dump(v)} for vj, v in sink]
+    # would the call change anything if nothing were sealed / if accessors were writable?
+    r1, _ = twin(pre_root, pre_ext, in_ext)
+    sink1 = []
+    o['unsealed'] = {'res': run_call(r1, step, extra_sealed=[False], sink=sink1)}
+    o['unsealed']['changes'] = dump(r1) != pre
+    o['unsealed']['ins_changed'] = [dump(v) != vj for vj, v in sink1]
+    r2, _ = twin(pre_root, pre_ext, in_ext)
+    o['acc_true'] = {'res': run_call(r2, step, extra_acc=[True])}
+    o['acc_true']['tree'] = dump(r2)
+    return o
 
   # -- the property itself ------------------------------------------------------------------
   def oracle(self, case, out):
@@ -1251,7 +1405,18 @@ class C08(Prop):
     if pre != case['tree']:
       return {'signature': 'harness-build-mismatch', 'what': 'built %s from %s' % (pre, case['tree'])}
     pre_ext = case.get('ext')
+    stacks = {}          # thread -> [(which, value)], innermost last: the scopes each thread is inside of
     for step, o in zip(case['steps'], out['steps']):
+      if step['kind'] == 'enter':
+        stacks.setdefault(step['t'], []).append((step['which'], step['v']))
+        continue
+      if step['kind'] == 'leave':
+        stacks[step['t']].pop()
+        continue
+      if case.get('threads') and step['kind'] == 'call':
+        # a call is judged by the scopes of the thread that makes it, and by nothing else
+        mine = stacks.get(step['t'], [])
+        step = dict(step, sealed_scopes=[v for w, v in mine if w == 'sealed'], acc_scopes=[v for w, v in mine if w == 'acc'])
       in_ext = step.get('in') == 'ext'
       if pre_ext is not None:
         # the forest: what is done to one tree does not reach the other (a pg.Ref element is a node of
@@ -1407,7 +1572,7 @@ class C08(Prop):
   def nontrivial(self, case, out):
     t = case['tree']
     for s in case['steps']:
-      if s['kind'] == 'seal':
+      if s['kind'] in ('seal', 'enter'):
         return True
       if s['kind'] in ('call', 'generic'):
         if True in s.get('sealed_scopes', []) or False in s.get('acc_scopes', []):
@@ -1427,6 +1592,9 @@ class C08(Prop):
       h.append('inferential-elements')
     if case.get('forest'):
       h.append('forest(pg.Ref)')
+    if case.get('threads'):
+      h.append('threads:%d+harness' % case['threads'])
+      h.append('scope-steps:%d' % min(8, sum(1 for s_ in case['steps'] if s_['kind'] == 'enter')))
     for s, o in zip(case['steps'], out['steps']):
       if s['kind'] in ('call', 'generic'):
         name = s['call']['name'] if s['kind'] == 'call' else 'generic'
@@ -1459,6 +1627,19 @@ class C08(Prop):
 
   def shrink_candidates(self, case):
     steps = case['steps']
+    if case.get('threads'):
+      # calls go one by one; a scope goes with its own leave (matched per thread)
+      for i, s_ in enumerate(steps):
+        if s_['kind'] == 'call' and sum(1 for x in steps if x['kind'] == 'call') > 1:
+          yield dict(case, steps=steps[:i] + steps[i + 1:])
+      open_ = {}
+      for i, s_ in enumerate(steps):
+        if s_['kind'] == 'enter':
+          open_.setdefault(s_['t'], []).append(i)
+        elif s_['kind'] == 'leave':
+          j = open_[s_['t']].pop()
+          yield dict(case, steps=[x for k, x in enumerate(steps) if k not in (i, j)])
+      return
     for i in range(len(steps)):
       if len(steps) > 1:
         yield {'tree': case['tree'], 'steps': steps[:i] + steps[i + 1:]}
